@@ -1,6 +1,6 @@
 (* non-vacuity: concrete, non-trivial values meeting the hypotheses of each
    theorem of Properties.v (all by vm_compute) *)
-From V Require Import Common.Base C17.WriteSM C17.Spec C17.Proofs C17.CompileProofs C17.DiskProofs C17.SpecProofs C17.IOFail C17.PathModel C17.PathProofs C17.LinkProofs C17.Modes.
+From V Require Import Common.Base C17.WriteSM C17.Spec C17.Proofs C17.CompileProofs C17.DiskProofs C17.SpecProofs C17.IOFail C17.PathModel C17.PathProofs C17.RelProofs C17.LinkProofs C17.Modes C17.IOHist C17.Cancel.
 From Coq Require Import String.
 
 Definition ex_opts := mkOpts true false false.
@@ -132,7 +132,7 @@ Example ex_join_inside :
   fs_join (P "/w/out") (P "./../a.js") = P "/w/a.js".
 Proof. vm_compute. repeat split; reflexivity. Qed.
 
-(* neutralise_no_dotdot_partial: two leading parent-directory segments; the hypothesis holds *)
+(* neutralise_removes_leading_dotdot: two leading parent-directory segments; the hypothesis holds *)
 Example ex_neutralise :
   neutralise (P "../../x/") = P "/_.._/_.._/x" /\
   has_dd (skipn (count_dotdot 9 (P "../../x/") * 3) (P "../../x/")) = false /\
@@ -176,4 +176,41 @@ Proof. vm_compute. repeat split; try reflexivity. discriminate. Qed.
 Example ex_modes :
   mode_write CliServe true = false /\ mode_write CliBuild false = true /\ mode_write ApiServe true = true /\
   effective_allow (mode_opts CliServe true false false) = true.
+Proof. vm_compute. repeat split; reflexivity. Qed.
+
+(* entry/chunk/asset_output_inside_outdir: hypotheses met by ordinary values *)
+Example ex_kinds_of_outputs :
+  chunk_out_path (P "/w/out") default_asset_template (P "ABCD2345") (P ".js") = P "/w/out/chunk-ABCD2345.js" /\
+  no_dotdot_seg (chunk_rel_path default_asset_template (P "ABCD2345") (P ".js")) = true /\
+  asset_out_path (P "/w/out") (asset_template (P "[dir]/[name]-[hash]")) (P "/w/src") (P "/w/src/sub/pic.x.png") (P "H") = P "/w/out/sub/pic.x-H.png" /\
+  asset_out_path (P "/w/out") (asset_template (P "[ext]/[name]")) (P "/w/src") (P "/w/other/s.module.css") [] = P "/w/out/module.css/s.module.module.css" /\
+  entry_out_path (P "/w/out") default_entry_template (P "/w/src") (P "/w/src/a.js") (explicit_custom (P "/w/out") (P "/w/elsewhere/z")) [] (P ".js") = P "/w/out/_.._/elsewhere/z.js".
+Proof. vm_compute. repeat split; reflexivity. Qed.
+
+(* io_deletes_only_own_partial: a history with a failed write followed by a
+   rebuild that deletes the failed path (J2 shape) - the partial statement's
+   third clause takes its right-hand side *)
+Example ex_io_history :
+  let h := trace_io_full phys_id true ex_opts (init ex_d0) [(ex_oc1, [P "/out/b.js"]); (ex_oc2, [])] in
+  map (fun x => r_effects (snd x)) h = [[EWrite (P "/out/a.js") [10]]; [EWrite (P "/out/c.js") [12]; EDelete (P "/out/b.js")]] /\
+  failed_paths (firstn 1 h) = [P "/out/b.js"] /\ written_paths_io (firstn 1 h) = [P "/out/a.js"] /\
+  reported_paths (firstn 1 h) = [P "/out/a.js"; P "/out/b.js"].
+Proof. vm_compute. repeat split; reflexivity. Qed.
+
+(* cancelled_build_writes_nothing: both landing points before the check, from a state with a non-empty table *)
+Example ex_cancel :
+  let st1 := fst (step phys_id ex_opts (init ex_d0) ex_oc1) in
+  step phys_id ex_opts st1 (with_cancel ex_oc2 BeforeCompile) = (st1, mkResult true true [] [] None) /\
+  step phys_id ex_opts st1 (with_cancel ex_oc2 DuringLink) = (st1, mkResult true true [] [] None) /\
+  r_effects (snd (step phys_id ex_opts st1 (with_cancel ex_oc2 AfterCheck))) = [EWrite (P "/out/c.js") [12]; EDelete (P "/out/b.js")].
+Proof. vm_compute. repeat split; reflexivity. Qed.
+
+(* relative_dir_has_no_dotdot: hypotheses met with an entry outside outbase and with a relative explicit output path *)
+Example ex_relative_dir :
+  is_rooted (P "/w/src") = true /\
+  is_rooted (effective_abs (P "/w/src") (P "/w/other/deep/b.js") false []) = true /\
+  no_bs (effective_abs (P "/w/src") (P "/w/other/deep/b.js") false []) = true /\
+  fst (path_relative_to_outbase (P "/w/src") (P "/w/other/deep/b.js") false []) = P "/_.._/other/deep" /\
+  effective_abs (P "/w/src") (P "/w/src/a.js") false (P "../../esc") = P "/esc" /\
+  fst (path_relative_to_outbase (P "/w/src") (P "/w/src/a.js") false (P "../../esc")) = P "/_.._/_.._".
 Proof. vm_compute. repeat split; reflexivity. Qed.
